@@ -279,13 +279,15 @@ where
     let fri_params = config.fri_params(degree_bits);
     let cap_height = fri_params.config.cap_height;
 
-    ensure!(trace_cap.height() == cap_height);
+    // Compare lengths rather than calling `MerkleCap::height`, which panics unless the length
+    // is a power of two.
+    ensure!(trace_cap.len() == 1 << cap_height);
     // The quotient cap must be present exactly when the STARK has quotient polynomials: a missing
     // cap would leave the quotient oracle out of both the transcript and the FRI Merkle checks.
     ensure!(quotient_polys_cap.is_some() == (stark.num_quotient_polys(config) > 0));
     ensure!(
         quotient_polys_cap.is_none()
-            || quotient_polys_cap.as_ref().map(|q| q.height()) == Some(cap_height)
+            || quotient_polys_cap.as_ref().map(|q| q.len()) == Some(1 << cap_height)
     );
 
     ensure!(local_values.len() == S::COLUMNS);
@@ -345,7 +347,7 @@ where
             ensure!(ctl_zs_first.len() == num_ctl_zs);
         }
 
-        ensure!(auxiliary_polys_cap.height() == cap_height);
+        ensure!(auxiliary_polys_cap.len() == 1 << cap_height);
         ensure!(auxiliary_polys.len() == num_auxiliary);
         ensure!(auxiliary_polys_next.len() == num_auxiliary);
     } else {
